@@ -30,4 +30,7 @@ def run(ctx):
                                  "hit of the real Attacker through the real http.Client with a fake RoundTripper and recording bodies (quick: all request/"
                                  "failure cases, every 3rd response case at a seed-dependent offset; thorough: all), plus random cases with large bodies"})
     ctx.assumptions += ["redirect responses of the fake transport have empty bodies; the final response body is delivered in 2-byte reads"]
+    # the flags that configure the hit path (-max-body, -redirects, -header, -chunked, -body, -name) as the command wires them (spec/cli/AttackCmd.tla)
+    from . import acmd
+    acmd.run_part(ctx, vh)
     return "model_checking"
